@@ -501,7 +501,8 @@ class Gen:
             op = "sum"
         kinds = {"sum": "biufc", "prod": "iufc", "amax": "if", "amin": "if",
                  "all": "bif", "any": "bif"}[op]
-        x = self.pick_or_new(lambda i: self.dtype(i).kind in kinds and self.v(i).ndim >= 1,
+        min_nd = 0 if self.rng.random() < 0.08 else 1     # (0-d operands: nothing to reduce)
+        x = self.pick_or_new(lambda i: self.dtype(i).kind in kinds and self.v(i).ndim >= min_nd,
                              shape=self.rand_shape(self.rng.choice([1, 2, 2, 3, 4])),
                              dtype=self.rand_dtype(kinds),
                              pool="pow2" if op == "prod" else "dyadic")
@@ -511,7 +512,8 @@ class Gen:
         if nd == 0 or self.rng.random() < 0.2:
             ax: Any = None
         else:
-            k = self.rng.randrange(1, nd + 1)
+            # (the empty axis tuple is a reduction too: the identity)
+            k = self.rng.randrange(1, nd + 1) if self.rng.random() >= 0.06 else 0
             ax = sorted(self.rng.sample(range(nd), k))
             if self.rng.random() < 0.3:
                 self.rng.shuffle(ax)
